@@ -50,7 +50,13 @@ func ExtractMatrices(M tensor.Tensor, nMatrices, nDimensions, hiddenSize int) ([
 			return nil, err
 		}
 
-		matrices[i] = m
+		// Slicing drops axes of extent 1 (e.g. a hidden size of 1): restore them.
+		matrix := m.Materialize()
+		if err := matrix.Reshape(append([]int{hiddenSize}, M.Shape()[2:]...)...); err != nil {
+			return nil, err
+		}
+
+		matrices[i] = matrix
 	}
 
 	return matrices, nil
